@@ -17,7 +17,7 @@ What is modelled, function by function:
                         `PlanQuery`; `ExecutePlan` re-collects them per request (`specialise`, plan.go:177-192);
 * `skips`               `planDirectives` (plan.go:551-608) for literal `if:` and, in a specialised plan, for Boolean
                         variables (`planVars`);
-* `collectSel/Sels/Set` `collectInto` (plan.go:359-446) over an abstract per-parent-type context `Ctx`
+* `collectSel/Sels/Set` `collectInto` (plan.go, incl. the descent-path guard `chain.has(fragName)` of repair D-09d) over an abstract per-parent-type context `Ctx`
                         (`applies` = `planFragmentMatches`, `fieldDef` = `getFieldDef`, `frags` = `Plan.fragments`);
                         `rec` is the call that enters a fragment body (open recursion: the fuel is consumed there only);
 * `collectFuel`         ties the knot with an explicit fuel; `fuelFor` = number of fragment definitions + 1 suffices
@@ -107,12 +107,16 @@ def docDynamic (doc : Document) : Bool :=
 
 /-! ## Plan-time collection (`collectInto`) -/
 
-/-- one `fieldPlan`: `subs` = the selection sets of the merged field ASTs that have one, in merge order -/
+/-- `fragmentChain`: the named fragments whose bodies enclose a position, innermost first -/
+abbrev Chain := List String
+
+/-- one `fieldPlan`: `subs` = the selection sets of the merged field ASTs that have one, in merge order, each with the
+chain of fragments enclosing that AST (`fieldPlan.astChains`) -/
 structure FieldPlan where
   key : String
   name : String
   fdef : Option FieldDefS
-  subs : List SelectionSet
+  subs : List (SelectionSet × Chain)
   nAsts : Nat
 deriving Inhabited
 
@@ -136,7 +140,7 @@ def Ctx.lookup (c : Ctx) (n : String) : Option (String × String × SelectionSet
   c.frags.find? (fun f => f.1 == n)
 
 /-- `keyed[responseKey]` hit: append the AST to the existing field plan; miss: new field plan at the end -/
-def addField (c : Ctx) (key name : String) (sub : Option SelectionSet) : List FieldPlan → List FieldPlan
+def addField (c : Ctx) (key name : String) (sub : Option (SelectionSet × Chain)) : List FieldPlan → List FieldPlan
   | [] => [{ key := key, name := name, fdef := c.fieldDef name, subs := sub.toList, nAsts := 1 }]
   | fp :: rest =>
     if fp.key == key then { fp with subs := fp.subs ++ sub.toList, nAsts := fp.nAsts + 1 } :: rest
@@ -148,47 +152,48 @@ def responseKey (alias : Option Name) (name : Name) : String :=
   | none => name.value
 
 mutual
-/-- one iteration of the loop over `selectionSet.Selections` -/
-def collectSel (c : Ctx) (rec : SelectionSet → St → St) : Selection → St → St
+/-- one iteration of the loop over `selectionSet.Selections`; `chain` = fragments enclosing this selection set
+(descent-path guard: a fragment on the chain is not expanded again below itself) -/
+def collectSel (c : Ctx) (rec : Chain → SelectionSet → St → St) (chain : Chain) : Selection → St → St
   | .field alias name _ dirs sub _, st =>
     if c.skip dirs then st
-    else { st with fields := addField c (responseKey alias name) name.value sub st.fields }
+    else { st with fields := addField c (responseKey alias name) name.value (sub.map (·, chain)) st.fields }
   | .inline tc dirs ss _, st =>
     if c.skip dirs then st
     else if !c.applies (tc.map TypeRef.namedName) then st
-    else collectSet c rec ss st
+    else collectSet c rec chain ss st
   | .spread name dirs _, st =>
     if c.skip dirs then st
-    else if st.visited.contains name.value then st
+    else if st.visited.contains name.value || chain.contains name.value then st
     else
       match c.lookup name.value with
       | none => st
       | some (_, cond, body) =>
         let st := { st with visited := name.value :: st.visited }
         if !c.applies (some cond) then st
-        else rec body { st with entered := name.value :: st.entered }
+        else rec (name.value :: chain) body { st with entered := name.value :: st.entered }
 /-- a `collectInto` call on a selection set that is part of the current syntax tree -/
-def collectSet (c : Ctx) (rec : SelectionSet → St → St) : SelectionSet → St → St
-  | .mk sels _, st => collectSels c rec sels { st with collect := st.collect + 1 }
-def collectSels (c : Ctx) (rec : SelectionSet → St → St) : List Selection → St → St
+def collectSet (c : Ctx) (rec : Chain → SelectionSet → St → St) (chain : Chain) : SelectionSet → St → St
+  | .mk sels _, st => collectSels c rec chain sels { st with collect := st.collect + 1 }
+def collectSels (c : Ctx) (rec : Chain → SelectionSet → St → St) (chain : Chain) : List Selection → St → St
   | [], st => st
-  | s :: rest, st => collectSels c rec rest (collectSel c rec s st)
+  | s :: rest, st => collectSels c rec chain rest (collectSel c rec chain s st)
 end
 
 /-- `collectInto` with the recursion through fragment bodies bounded by fuel -/
-def collectFuel (c : Ctx) : Nat → SelectionSet → St → St
-  | 0 => fun _ st => { st with oof := true }
-  | n + 1 => fun ss st => collectSet c (collectFuel c n) ss st
+def collectFuel (c : Ctx) : Nat → Chain → SelectionSet → St → St
+  | 0 => fun _ _ st => { st with oof := true }
+  | n + 1 => fun chain ss st => collectSet c (collectFuel c n) chain ss st
 
 def fuelFor (c : Ctx) : Nat := c.frags.length + 1
 
 /-- `collectInto` as called from `planSelectionSet` / `planMergedSelectionsForType` -/
-def collectTop (c : Ctx) (ss : SelectionSet) (st : St) : St := collectFuel c (fuelFor c) ss st
+def collectTop (c : Ctx) (chain : Chain) (ss : SelectionSet) (st : St) : St := collectFuel c (fuelFor c) chain ss st
 
 /-- `planMergedSelectionsForType(parentType, fieldASTs)`: all merged ASTs share one visited set -/
-def planMerged (c : Ctx) : List SelectionSet → St → St
+def planMerged (c : Ctx) : List (SelectionSet × Chain) → St → St
   | [], st => st
-  | ss :: rest, st => planMerged c rest (collectTop c ss st)
+  | (ss, chain) :: rest, st => planMerged c rest (collectTop c chain ss st)
 
 /-! ## Syntactic size measures used by the bounds -/
 
@@ -216,8 +221,8 @@ def fragWeight (f : String × String × SelectionSet) : Nat := 1 + inlSet f.2.2
 def fragsSize (frags : List (String × String × SelectionSet)) : Nat := potential fragWeight frags []
 
 /-- size of one level of a merged selection: the sets themselves, their inline fragments, every fragment once -/
-def levelSize (c : Ctx) (subs : List SelectionSet) : Nat :=
-  (subs.map (fun ss => 1 + inlSet ss)).sum + fragsSize c.frags
+def levelSize (c : Ctx) (subs : List (SelectionSet × Chain)) : Nat :=
+  (subs.map (fun ss => 1 + inlSet ss.1)).sum + fragsSize c.frags
 
 /-! ## The environment of a request: schema, document, operation -/
 
@@ -281,7 +286,7 @@ structure Counts where
 deriving DecidableEq, Repr, Inhabited
 
 /-- the root `selectionPlan` as `planSelectionSet(rootType, operation.SelectionSet, nil)` builds it -/
-def rootPlan (e : Env) (root : String) (ss : SelectionSet) : St := collectTop (e.ctx root) ss {}
+def rootPlan (e : Env) (root : String) (ss : SelectionSet) : St := collectTop (e.ctx root) [] ss {}
 
 /-- counters after `PlanQuery(schema, doc, opName)` -/
 def planCost (s : Schema) (doc : Document) (opName : String) : Counts :=
@@ -310,7 +315,7 @@ abbrev Path := List (String × String)
 planned (`subs`) and what it cost -/
 structure Entry where
   id : Path
-  subs : List SelectionSet
+  subs : List (SelectionSet × Chain)
   cost : Nat
   oof : Bool
 
